@@ -1089,6 +1089,8 @@ def e9_untyped_containers(ctx) -> None:
 
 
 def run(ctx) -> None:
+    from .c15 import r15_4 as _r15_4
+    ctx.guard_as("E10", _r15_4)  # a header member that is present is type-checked before anything uses it (null included)
     ctx.guard(e6_none_safety)
     ctx.guard(e1_e5)
     ctx.guard(e2a)
